@@ -233,6 +233,38 @@ def skip_actions(facts, rule):
             except minieval.Unknown:
                 return "?"
 
+        def table_row(key_, init):
+            """`const Rule& r = rules[<head-decided index>];` with `rules` a constant local array of aggregates: the members of r"""
+            u_ = unwrap_all_casts(init)
+            if not (isinstance(u_, dict) and u_.get("k") == "Index"):
+                return False
+            b_ = unwrap_all_casts(u_.get("base"))
+            if not (isinstance(b_, dict) and b_.get("k") == "Ref" and b_.get("d") in ("local", "staticlocal")):
+                return False
+            arr = None
+            for d_ in ir.walk(f["body"]):
+                if d_.get("k") == "Decl":
+                    for v_ in d_.get("vars", []):
+                        if v_.get("id") == b_.get("id") and v_.get("n") == b_.get("n") and "const" in (v_.get("t") or ""):
+                            arr = unwrap_all_casts(v_.get("init")) if v_.get("init") is not None else None
+            if not (isinstance(arr, dict) and arr.get("k") == "InitList"):
+                return False
+            i_ = minieval.ev(unwrap(u_["idx"]), env, enums)
+            rows = arr.get("c", [])
+            if not (0 <= i_ < len(rows)):
+                raise minieval.Unknown("row %s of a %d-row table" % (i_, len(rows)))
+            row = unwrap_all_casts(rows[i_])
+            tn_ = (row.get("t") or "").replace("const ", "") if isinstance(row, dict) else ""
+            rec_ = facts.records.get(tn_)
+            if rec_ is None and tn_:
+                cands_ = [r_ for q_, r_ in facts.records.items() if q_.endswith("::" + tn_)]
+                rec_ = cands_[0] if len(set(id(x) for x in cands_)) == 1 else None
+            if not (isinstance(row, dict) and row.get("k") == "InitList" and rec_ and len(rec_.get("fields", [])) == len(row.get("c", []))):
+                return False
+            for fld, val in zip(rec_["fields"], row["c"]):
+                env["%s.%s" % (key_, fld["n"])] = minieval.ev(unwrap(val), env, enums)
+            return True
+
         def call(u_):
             nm = callee_name(u_)
             if nm == "read_int":
@@ -306,11 +338,30 @@ def skip_actions(facts, rule):
                         if "n" not in v or v.get("init") is None:
                             continue
                         key_ = "l:%s#%s" % (v["n"], v["id"])
+                        if table_row(key_, v["init"]):
+                            continue
                         d_ = descr(v["init"])
                         if d_ in ("N", "N*2"):
                             counts[key_] = d_
                         elif d_ != "?":
                             env[key_] = d_
+                elif k_ in ("For", "While"):
+                    # a counted loop over values the head decides (`for (i = 0; i < rule.nested; i++) push(..)`)
+                    if k_ == "For" and u_.get("init") is not None:
+                        walk_([u_["init"]])
+                    rounds = 0
+                    while u_.get("cond") is None or minieval.ev(unwrap(u_["cond"]), env, enums):
+                        rounds += 1
+                        if rounds > 16:
+                            raise minieval.Unknown("a loop in the dispatch does not end within 16 rounds")
+                        try:
+                            walk_(ir.stmts(u_.get("body")))
+                        except Stop as st_:
+                            if str(st_) == "break":
+                                break
+                            raise
+                        if k_ == "For" and u_.get("inc") is not None:
+                            minieval.step(unwrap(u_["inc"]), env, enums)
                 elif k_ in ("Call", "MCall", "OpCall"):
                     call(u_)
                 elif k_ == "Bin" and u_.get("op", "").endswith("=") and u_["op"] not in ("==", "!=", "<=", ">="):
